@@ -25,6 +25,9 @@ echo "== demo with the patch"
 go test -vet=off -count=1 $RACE -run 'Seed|Demo' ./$DIR/ 2>&1 | tail -4
 rm -f /repo/$DIR/zz_seed_demo_test.go
 echo "== check $PROP quick with the patch"
+cp /verif/evidence/$PROP.json /tmp/evidence_$PROP.json.keep 2>/dev/null
 cd /verif && ./check $PROP quick $ENTRY 2>&1 | grep -v "^\[" | cut -c1-300 | tail -8
+# evidence describes runs on the unchanged tree only
+[ -f /tmp/evidence_$PROP.json.keep ] && mv /tmp/evidence_$PROP.json.keep /verif/evidence/$PROP.json
 echo "exit=$?"
 git -C /repo checkout -- . ; git -C /repo status --short
